@@ -100,6 +100,9 @@ func (eng) Cases(seed uint64, tier string) []core.CaseDesc {
 	}
 	for i := 0; i < n; i++ {
 		cs = append(cs, mk(fmt.Sprintf("eximport/%03d", i), "eximport", seed*1000003+uint64(i)*17, nil))
+		if i < 2 {
+			cs = append(cs, mk(fmt.Sprintf("eximport-restored/%03d", i), "eximport-restored", seed*1000003+uint64(i)*19, nil))
+		}
 	}
 	nk := 3
 	if tier == "thorough" {
@@ -332,6 +335,8 @@ func (e eng) Run(c core.CaseDesc, tier string) *core.CaseResult {
 		runBack(res, c, p)
 	case "resume":
 		runResume(res, c, p)
+	case "eximport-restored":
+		runExImportRestored(res, c)
 	case "eximport":
 		runExImport(res, c)
 	case "crash":
@@ -806,6 +811,52 @@ func b2i(b bool) int {
 }
 
 // ---------- Export / Import
+
+// runExImportRestored: a schema that defines the predefined MachineRestored
+// state, which Import activates when it exists.
+func runExImportRestored(res *core.CaseResult, c core.CaseDesc) {
+	r := gen.NewRand(c.Seed, 19)
+	sc := am.Schema{"A": {}, "B": {Multi: true}, am.StateMachineRestored: {Multi: r.IntN(2) == 0}}
+	names := am.S{"A", "B", am.StateMachineRestored, am.StateException}
+	m1 := am.New(context.Background(), sc, &am.Opts{Id: "c17exr", DontLogId: true})
+	defer m1.Dispose()
+	_ = m1.VerifyStates(names)
+	m1.Add1("A", nil)
+	for i := 0; i < 1+r.IntN(4); i++ {
+		m1.Add1("B", nil)
+	}
+	exp, _, err := m1.Export()
+	if err != nil {
+		res.Violate("C17/export/error", fmt.Sprintf("Export failed: %v", err), nil)
+		return
+	}
+	m2 := am.New(context.Background(), sc, &am.Opts{Id: "c17exr", DontLogId: true})
+	defer m2.Dispose()
+	done := make(chan error, 1)
+	go func() { done <- m2.Import(exp) }()
+	res.Evals++
+	select {
+	case err := <-done:
+		if err != nil {
+			res.Violate("C17/import/error", fmt.Sprintf("Import(Export()) failed: %v", err), nil)
+			return
+		}
+	case <-time.After(10 * time.Second):
+		res.Violate("C17/import/blocked/schema-defines-MachineRestored", "Import did not return within 10s on a machine whose schema defines MachineRestored",
+			map[string]any{"dump": core.StackAll()})
+		return
+	}
+	for _, n := range []string{"A", "B"} {
+		if m1.Tick(n) != m2.Tick(n) {
+			res.Violate("C17/import/ticks", fmt.Sprintf("after Import the tick of %s is %d, the exporting machine has %d", n, m2.Tick(n), m1.Tick(n)), nil)
+			return
+		}
+	}
+	if m2.MachineTick() != m1.MachineTick()+1 {
+		res.Violate("C17/import/machine-tick", fmt.Sprintf("after Import MachineTick = %d, the exporting machine has %d (want one higher)", m2.MachineTick(), m1.MachineTick()), nil)
+	}
+	res.Key("eximport-restored", m2.Is1(am.StateMachineRestored))
+}
 
 func runExImport(res *core.CaseResult, c core.CaseDesc) {
 	r := gen.NewRand(c.Seed, 18)
